@@ -273,7 +273,11 @@ def gen_mcase(rng):
     dts = [rng.choice(["i", "f", "c"]) for _ in range(nk)]
     mode = rng.choice(["pyth", "free"])
     for _ in range(nk):
-        doms.append(gen_dom(rng, budget=12))
+        # several keys on the SAME DomainTuple: only then can leaves be mixed up without tripping the identity check
+        if doms and rng.random() < 0.4:
+            doms.append([list(r) for r in doms[rng.randrange(len(doms))]])
+        else:
+            doms.append(gen_dom(rng, budget=12))
     sizes = [dom_size(r) for r in doms]
     mf = []
     for which in range(4):  # a, b: data; u: units; e: exponents
